@@ -26,7 +26,8 @@ RULE = (
     "readable at the end, some call from the one in progress at the fault up to the first call issued after it "
     "(close included) reported an error; (3) after the first reported error every later write reports an error. "
     "Exhaustive over the schedules of each generated sequence. Non-trivial: the fault hits a write / truncate / close "
-    "/ rename of a data file."
+    "/ rename of a data file (distinct_nontrivial counts such schedules, distinct by construction, plus the "
+    "recordings dominated by them)."
 )
 ASSUMPTIONS = [
     "fault points are those of HDF5 1.10.8 (system library); the shipped wheel uses HDF5 1.14.5",
@@ -283,6 +284,7 @@ def run_case(case):
                     fail("judge-exception:%s" % type(e).__name__, "fault %r: %s" % (sched, e))
                 shutil.rmtree(d, ignore_errors=True)
         res.nontrivial = nt * 2 >= len(scheds)
+        res.nt_units = nt
         res.cls("ops:%d" % (N // 10 * 10))
     return res
 
